@@ -8,7 +8,7 @@
    The code modelled is the code with fixes/C14_*.patch ([gfixed]); the code without each guard is refuted below. *)
 From Coq Require Import List ZArith Bool.
 From K.Model Require Import C14.
-From K.Proof Require C14 C14_main C14_frame C14_sound C14_refute.
+From K.Proof Require C14 C14_main C14_frame C14_sound C14_sched C14_refute.
 Import ListNotations.
 Local Open Scope Z_scope.
 
@@ -118,6 +118,27 @@ Theorem C14_check_sound : forall t have bfull h ms,
   C14_check t have bfull h ms (run_case gfixed t have bfull h ms) = true.
 Proof. exact Proof.C14_sound.check_sound. Qed.
 Print Assumptions C14_check_sound.
+
+(* ---- at the scheduler (scheduler.go establishIncomingHandshake, with fixes/C14_infohash_mismatch.patch): an
+   incoming connection that has ended — refused, answered and closed, or served — leaves no pending or active
+   entry behind (the entries themselves are C16's model), so each attempt is answered by its own fields alone *)
+Theorem C14_ended_connection_leaves_no_entry : forall s a, fst (sched_attempt true s a) = s.
+Proof. exact Proof.C14_sched.attempt_leaves_nothing. Qed.
+Print Assumptions C14_ended_connection_leaves_no_entry.
+
+Theorem C14_sched_check_sound : forall l, C14_sched_check l (snd (sched_run true sinit l)) = true.
+Proof. exact Proof.C14_sched.sched_check_sound. Qed.
+Print Assumptions C14_sched_check_sound.
+
+(* before that fix: a handshake whose info hash is not the hash of the torrent its digest names leaves an entry
+   for ever; n such handshakes leave n entries, for every n; the same handshake sent twice is answered differently *)
+Theorem C14_infohash_mismatch_refuted :
+  (exists s a, ss_pending (fst (sched_attempt false s a)) <> ss_pending s) /\
+  snd (sched_run false sinit [mksa 1 7 true true; mksa 1 7 true true]) = [1; 0] /\
+  snd (sched_run true sinit [mksa 1 7 true true; mksa 1 7 true true]) = [0; 0] /\
+  forall n, length (ss_pending (fst (sched_run false sinit (Proof.C14_sched.foreign_from 0 n)))) = n.
+Proof. exact Proof.C14_sched.unguarded_leak_refuted. Qed.
+Print Assumptions C14_infohash_mismatch_refuted.
 
 (* ---- the code before the fixes: each guard removed on its own breaks the property (witnesses = driver seeds) *)
 Theorem C14_nil_body_refuted :
